@@ -1,4 +1,4 @@
-// CONFIGS: back back11 backmp11
+// CONFIGS: back back11 backmp11 backmp11_ct
 // family `order` (C02 C19 C03): every row kind (guard+action, guard only, action only, neither), into and out of a
 // two-region submachine, internal transition; all four active-state-switch policies; every behaviour logs the state id the
 // machine reports for the transitioning region.  Oracle typed from the statements of C02 and C19.
